@@ -20,6 +20,10 @@ class NotFinite(Exception):
     pass
 
 
+class Raised(Exception):
+    """the evaluated function executed a `raise` statement"""
+
+
 class FinObj:
     """a record the evaluated function may read and write attributes of (ev reads every attribute, stores go through _bind2)"""
 
@@ -235,6 +239,8 @@ def run_function(f, args: dict, funcs=None, env=None, final_env=None, methods=No
                 ps = [a.arg for a in st.args.posonlyargs + st.args.args]
                 env[st.name] = (lambda *a, _f=st, _ps=ps: run_function(_f, dict(zip(_ps, a)), funcs, env, methods=methods))
                 continue
+            if isinstance(st, ast.Raise):
+                raise Raised(unparse(st)[:80])
             if isinstance(st, ast.Continue):
                 raise _Continue()
             if isinstance(st, ast.Break):
